@@ -26,16 +26,18 @@ TRUSTED = ["model: lean/Srctools/Model/B64.lean (exact binary64: rne, +,-,*,/, f
            "source site from Gen.Angles)",
            "trigonometry (math.sin/cos/atan2/degrees, matrix products) is not modelled: the values returned by math.degrees "
            "are recorded from outside and given to the model as raw inputs of MatrixBase._to_angle",
-           "C05_norm_range is proved for every RoundingSystem (monotone rounding that fixes 0 and 360) and, independently, for the "
-           "concrete binary64 model (C05_norm_range_b64, by the definition of its rounding); that CPython's float arithmetic "
-           "is this model is established by the bit-exact comparison of this run only. The concrete rne is NOT proved to be a "
-           "RoundingSystem instance (monotonicity across binades is not proved); the two theorems are independent",
+           "C05_norm_range is proved for every RoundingSystem; binary64 round-to-nearest-even is proved to be one (b64RS: nearest "
+           "representable value, hence monotone across binades; identity on representables; 0 and 360 representable), the bit "
+           "model's + and * are proved to be rne∘exact and its x % 360.0 % 360.0 is proved equal to the abstract norm2Q "
+           "(C05_norm_b64_is_abstract), so the range theorem for doubles is an instance of the abstract one. That CPython's float "
+           "arithmetic is this bit model is established by the bit-exact comparison of this run only",
            "Gen.Frozen's reading of the source (an object bound to `X.__new__(X)`, to a constructor call with float arguments, or "
            "returned by a factory is new; `self` of a @final mutable class is never a frozen object) is the translator's: it is the "
            "hypothesis `Reading` of C05_frozen; the program fuzz checks every live frozen object after every step",
            "_math.pyx (Cython twin) is not covered"]
-NOT_MODELLED = ["_math.pyx", "sin/cos/atan2/sqrt/hypot and the matrix entries (oracle inputs)", "Matrix objects in the state machine "
-                "(implementation-side frame and frozen checks only; heap-level theorem C05_frozen covers their store sites)",
+NOT_MODELLED = ["_math.pyx", "sin/cos/atan2/sqrt/hypot: matrices built by trigonometry (from_yaw/from_angle/axis_angle/from_basis/"
+                "inverse) and the raw _to_angle inputs are oracle values; matrix products, transpose, copies, __setitem__, "
+                "forward/left/up and vector rotation ARE modelled and compared bit for bit",
                 "format specs other than the default in __format__",
                 "float() literals with underscores, non-ASCII white space in parse_vec_str",
                 "non-finite values: overflow of a product to inf gives nan fields (open finding overflow-nonfinite)"]
@@ -50,11 +52,15 @@ LEVEL_TEXT = ("Lean theorems: C05_norm_range (0 <= x % 360 % 360 < 360 for every
               "norm2/copyField/zero — decided by C05_gen_angles_ok on the sites regenerated from math.py; instantiated for binary64 "
               "and for every rounding system) and C05_angle_inv_needs_norm2; C05_frame_machine / C05_frozen_machine (an API call "
               "changes at most its mutable target; frozen objects never) and C05_frozen (heap frame theorem for the store sites "
-              "accepted by C05_gen_frozen_ok); C05_text_shape(_bits), C05_text_minus_zero_iff (+ witness, partial, angle "
-              "corollary), C05_text_close(_bits). The binary64 model, format_float, float(str), parse_vec_str and the state "
+              "accepted by C05_gen_frozen_ok); C05_frame_machine_obj/_mat, C05_frozen_machine_all, C05_angle_inv_all (the machine "
+              "extended with Matrix/FrozenMatrix objects: all six classes); C05_rne_nearest, C05_rne_is_rounding_system, "
+              "C05_b64_ops_are_rne, C05_norm_b64_is_abstract, C05_norm_range_unified; C05_text_shape(_bits), "
+              "C05_text_minus_zero_iff (+ witness, partial, angle corollary), C05_text_close(_bits), C05_text_parse_back, "
+              "C05_vec_text_roundtrip (parse_vec_str(str(v)) as coded, every component within 1e-6), "
+              "C05_text_parse_back_not_5e7. The binary64 model, format_float, float(str), parse_vec_str and the state "
               "machine are compared bit for bit with CPython / the implementation on every run.")
 LEVEL_NOTE = ("Trusted: Lean kernel + propext/Classical.choice/Quot.sound; tools/gen_angles.py, tools/gen_frozen.py; the harness. "
-              "Trigonometry is an oracle (not modelled); matrices are checked on the implementation only; _math.pyx not covered. "
+              "Trigonometry is an oracle (not modelled); _math.pyx not covered. "
               "Three open findings outside the proved domain: '-0' for small negative vector components (pinned by the repo's "
               "tests), overflow to nan, re-parsed double in [2^32,2^33).")
 TECHNIQUE = "Lean 4 proof (abstract rounding system + exact binary64 bit model, invariant by induction over histories, frame theorems, digit-level text proofs) + translator + bit-exact differential correspondence"
@@ -266,6 +272,8 @@ def run_programs(ctx, drv, smath, n, model):
             seen.add(key)
             record_witness(ctx, runner, key, what, prog)
         if model and drv is not None:
+            for mo in res['mops']:
+                ctx.count('model-op:' + mo[0])
             batch.append({'op': 'seq', 'ops': res['mops']})
             meta.append((prog, res))
     if not batch:
@@ -288,6 +296,13 @@ def run_programs(ctx, drv, smath, n, model):
                 if mid >= len(fin) or fin[mid] != [kc] + sn:
                     _dis(ctx, {'program': prog, 'object': mid}, [kc] + sn, fin[mid] if mid < len(fin) else None, 'state machine, final state')
                     break
+            else:
+                mfin = mr['mfinal']
+                for (mmid, fz, sn) in res['mfinal']:
+                    ctx.count('matrices-compared')
+                    if mmid >= len(mfin) or mfin[mmid] != [fz, sn]:
+                        _dis(ctx, {'program': prog, 'matrix': mmid}, [fz, sn], mfin[mmid] if mmid < len(mfin) else None, 'state machine, final matrices')
+                        break
 
 
 def record_witness(ctx, runner, key, what, prog):
